@@ -112,6 +112,10 @@ fn run_ops<R: RadioKind>(r: &mut R, bus: &Rc<RefCell<Bus>>, ops: &[&str]) -> Vec
                 let mp = ModulationParams { spreading_factor: sf(sfidx(int(a[1]))), bandwidth: bw(7), coding_rate: CodingRate::_4_5, low_data_rate_optimize: 0, frequency_in_hz: 868_100_000 };
                 res(run(r.do_cad(&mp)))
             }
+            "dumpregs" => {
+                let b = bus.borrow();
+                format!("regs={} fifo={}", hex(&b.regs[1..0x71]), hex(&b.chipbuf[0..16]))
+            }
             "irq" => res(run(r.set_irq_params(radio_mode(a[1])))),
             "cw" => res(run(r.set_tx_continuous_wave_mode())),
             "clrirq" => res(run(r.clear_irq_status())),
